@@ -346,6 +346,9 @@ TRANSPARENT = [
     r"^std::option::Option::<T>::take$",
     r"^std::result::Result::<T, E>::map_err$", r"^std::option::Option::<T>::ok_or$",
     r"^std::option::Option::<T>::ok_or_else$",
+    # element-wise copies of an iterator: the elements are the same values
+    r"^std::iter::Iterator::copied$", r"^std::iter::Iterator::cloned$",
+    r"^<.* as std::iter::Iterator>::copied$", r"^<.* as std::iter::Iterator>::cloned$",
 ]
 _TRANSPARENT_RE = [re.compile(p) for p in TRANSPARENT]
 
@@ -370,6 +373,24 @@ def known_fns():
         except OSError:
             _KNOWN_FNS = set()
     return _KNOWN_FNS
+
+
+def _is_pure_helper(f):
+    """no call in the helper receives a `&mut` (its result is then a function of its arguments that the return term shows
+    completely); a helper that feeds an engine or a buffer keeps its call term, arguments included"""
+    if not hasattr(f, "_pure"):
+        b = f.body
+        pure = True
+        for bi in b.reachable():
+            t = b.blocks[bi]["t"]
+            if b.blocks[bi]["cleanup"] or t["k"] != "call":
+                continue
+            for a in t["args"]:
+                pl = a.get("pl") if a["k"] in ("copy", "move") else None
+                if pl is not None and not pl["p"] and b.local_ty(pl["l"]).startswith("&mut "):
+                    pure = False
+        f._pure = pure
+    return f._pure
 
 
 def is_new_helper(prog, name):
@@ -572,7 +593,7 @@ class Prov:
         if strip and is_transparent(name) and args:
             return args[0]
         prog = getattr(self.b.fn, "prog", None)
-        if strip and prog is not None and getattr(self, "_inl", 0) < 3 and is_new_helper(prog, name):
+        if strip and prog is not None and getattr(self, "_inl", 0) < 3 and is_new_helper(prog, name) and _is_pure_helper(prog.fns[name]):
             cf = prog.fns[name]
             sub = Prov(cf.body, self.depth)
             sub._inl = getattr(self, "_inl", 0) + 1
